@@ -262,11 +262,11 @@ CLAIMED = {
   "lists; str::trim strips Unicode White_Space; fields the verifier never reads are dropped. The case decoder, the Rust case "
   "builder and the Python oracle are trusted plumbing."),
  "C19": (
-  "20 theorems (coq/Properties/C19.v, axiom-free) over a model of Rust's documented layout rules (alignment / size / padding under "
+  "23 theorems (coq/Properties/C19.v, axiom-free) over a model of Rust's documented layout rules (alignment / size / padding under "
   "repr(Rust|C|transparent|int, packed(N), align(N))) and of the decisions of derive(Align1), #[zero_copy], the generated packed sized "
   "part and the ZST placement rule, transcribed from the proc-macro sources: an accepted Align1 type has alignment 1, accepted "
   "zero_copy / sized parts have no padding and validate every field's bit pattern, a zero-sized component anywhere but last is "
-  "rejected, the documented valid forms are accepted. Tied to /repo by compiling 360 (quick) / 5000 (thorough) generated "
+  "rejected - including #[unsized_type] enums, which count as possibly empty as soon as one variant's payload does (C19_zst_enum_value, C19_zst_enum_rejected) - the documented valid forms are accepted. Tied to /repo by compiling 532 (quick) / 5000 (thorough) generated "
   "declarations with the real macros (accept / reject per declaration, align_of / size_of / bit-pattern tables printed by the "
   "accepted ones) and comparing with the extracted model; the predicate checks align_of == 1 etc. directly.",
   "rustc's layout algorithm is modelled from the Reference, not verified; bytemuck's derive-time padding assertion is modelled as the "
